@@ -32,6 +32,15 @@ pub mod cmd {
         PaymentReceived,
         TriggerIrrelevantRecordCleanup,
     }
+    /// reduced NetworkSwarmCmd
+    #[derive(Debug)]
+    pub enum NetworkSwarmCmd {
+        SendRequest {
+            req: crate::shim::ant_protocol::messages::Request,
+            peer: crate::shim::libp2p::PeerId,
+            sender: Option<crate::shim::tokio::sync::oneshot::Sender<()>>,
+        },
+    }
 }
 
 pub mod event {
@@ -68,6 +77,7 @@ pub mod error {
     pub enum NetworkError {
         InCorrectRecordHeader,
         Store(StoreError),
+        NotEnoughPeers { found: usize, required: usize },
     }
     impl From<StoreError> for NetworkError {
         fn from(e: StoreError) -> Self {
@@ -90,6 +100,11 @@ pub mod replication_fetcher;
 pub mod driver_model;
 #[path = "gen/cmd_arms.rs"]
 pub mod cmd_arms;
+#[path = "gen/driver_fns.rs"]
+pub mod driver_fns;
+#[path = "gen/closest_items.rs"]
+pub mod closest_items;
+pub mod h_driver;
 pub mod util;
 
 fn main() {
